@@ -2,6 +2,7 @@
 from vlib.core import Query
 
 INFO = {
+    "claim": "Every single and double bit pattern survives the portable .ao float encoding bit-for-bit (NaN stays NaN with its sign), and dissemble/assemble is the identity, decided by the solver over the full 2^32 / 2^64 input domains with loop bounds discharged by unwinding assertions; bounded model checking of xfloat.c/util.c, not a proof.",
     "level": "model_checking",
     "bounds": "no bound on values: every 32-bit and every 64-bit pattern is a symbolic input; loops in xfloat.c/util.c are "
               "bounded by the byte width of the formats and discharged by unwinding assertions (unwind 70)",
